@@ -704,6 +704,7 @@ package codec
 
 //@ func (*CodecManager).RegisterCodec
 //@   prop C12
+//@   modifies heap.all
 //@   inline
 //@   requires c != nil && c.codecMap != nil && codec != nil
 //@   ensures stored: c.codecMap[codecType] != nil && c.codecMap[codecType][ufi("codec.msgtype", codec)] == codec
@@ -733,6 +734,7 @@ package codec
 
 //@ func Init
 //@   prop C12
+//@   modifies heap.all
 //@   ensures registered-GlobalBeginRequest: isT(codecManager.codecMap[CodecTypeSeata][typecode(message.GlobalBeginRequest)], *GlobalBeginRequestCodec)
 //@   ensures registered-GlobalBeginResponse: isT(codecManager.codecMap[CodecTypeSeata][typecode(message.GlobalBeginResponse)], *GlobalBeginResponseCodec)
 //@   ensures registered-BranchCommitRequest: isT(codecManager.codecMap[CodecTypeSeata][typecode(message.BranchCommitRequest)], *BranchCommitRequestCodec)
